@@ -601,6 +601,11 @@ def _check_interpolation(ctx, iso, call):
     ads = d.loc[d["branch"] == 0]
     if len(ads) < 2:
         return
+    pa_, la_ = ads[iso.pressure_key].to_numpy(dtype=float), ads[iso.loading_key].to_numpy(dtype=float)
+    if not (numpy.all(numpy.diff(pa_) > 0) and numpy.all(numpy.diff(la_) > 0)):
+        # (user-assigned marks may pick rows that do not form a monotone series: interpolating through them at a measured point is
+        # not defined, whatever the history)
+        return
     k = len(ads) // 2
     pk = float(ads[iso.pressure_key].iloc[k])
     lk = float(ads[iso.loading_key].iloc[k])
